@@ -352,7 +352,7 @@ def run(ctx):
     # NOW, and lemmas - compiled here - that the generated functions equal Model/Controller.v for every input
     gen_notes = None
     try:
-        from ..translate_controller import translate, Untranslatable
+        from ..translate_controller import translate, Untranslatable, N_LEMMAS
         gen_text, gen_notes = translate(os.environ.get('VERIF_REPO', '/repo'))
         files.append(('ControllerGen', gen_text))
     except Exception as e:   # Untranslatable or a syntax the parser rejects: fail closed
@@ -362,12 +362,12 @@ def run(ctx):
     if 'ControllerGen' in res:
         rc, out = res.pop('ControllerGen')
         closed = out.count('Closed under the global context')
-        if rc != 0 or closed != 6:
+        if rc != 0 or closed != N_LEMMAS:
             ctx.obligation_broken('proof:generated-model = Model/Controller.v (gen_rtb_step_eq, gen_rtb_reset_eq, gen_sop_step_eq, '
                                   'gen_mpc_budget_eq)', out[-2500:])
         else:
             ctx.notes.append('translator tie: gen_rtb_step, gen_rtb_reset, gen_sop_step, gen_mpc_budget regenerated from the working tree '
-                             'and proved equal to Model/Controller.v (6 lemmas, closed under the global context); driver shapes: ' + '; '.join(gen_notes))
+                             'and proved equal to Model/Controller.v (equality lemmas and the transferred property theorems gen_sop_stops_exactly_when, gen_rtb_stops_exactly_when, gen_rtb_stays_false, gen_reset_restores_initial_state: 10 statements, closed under the global context); driver shapes: ' + '; '.join(gen_notes))
     table = dict(rtbT=rt_meta, rtbS=sg_meta, rtbR=rs_meta, sopT=so_meta, rtbTr=tr_meta, sopD=dr_meta_sop, rtbD=dr_meta_rtb)
     for name, (rc, out) in sorted(res.items()):
         ev = parse_evals(out)
